@@ -27,8 +27,10 @@ static struct {
 	int nops[2][RT_MAXT]; int ops[2][RT_MAXT][MAXOPS]; int dl[2][RT_MAXT][MAXOPS];
 	struct ev log[RT_MAXT][MAXLOG]; int nlog[RT_MAXT];
 	int barrier_count;
+	int zeroed;                 /* an nsync_counter_add that returned 0 has RETURNED */
+	int in_wait[RT_MAXT];       /* the thread is inside nsync_counter_wait / nsync_wait_n on the counter */
 } S;
-enum { CV_ADDS = 0, CV_READS, CV_WAITS_ZERO, CV_WAITS_TIMEOUT, CV_WAIT_SLEPT, CV_LATE_WAITS, CV_MIXED_ROUNDS, CV_LIN_STATES };
+enum { CV_ADDS = 0, CV_READS, CV_WAITS_ZERO, CV_WAITS_TIMEOUT, CV_WAIT_SLEPT, CV_LATE_WAITS, CV_MIXED_ROUNDS, CV_LIN_STATES, CV_IDLE };
 
 static struct ev *lb (int tid, int kind, int phase) {
 	struct ev *e;
@@ -40,9 +42,10 @@ static void le (struct ev *e, uint32_t res) { e->res = res; e->sleeps = rt_op_sl
 
 static void do_op (int tid, int kind, int phase, int dl_ns) {
 	struct ev *e = lb (tid, kind, phase); uint32_t r = 0;
+	if (kind >= K_WAIT_T) sc_set (&S.in_wait[tid], 1);
 	switch (kind) {
 	case K_INC: RT_OP ("nsync_counter_add", r = nsync_counter_add (S.c, 1)); rt_cover (CV_ADDS); break;
-	case K_DEC: RT_OP ("nsync_counter_add", r = nsync_counter_add (S.c, -1)); rt_cover (CV_ADDS); break;
+	case K_DEC: RT_OP ("nsync_counter_add", r = nsync_counter_add (S.c, -1)); rt_cover (CV_ADDS); if (r == 0 && S.type == 0) sc_set (&S.zeroed, 1); break;
 	case K_VALUE: RT_OP ("nsync_counter_value", r = nsync_counter_value (S.c)); rt_cover (CV_READS); break;
 	case K_ADD0: RT_OP ("nsync_counter_add", r = nsync_counter_add (S.c, 0)); rt_cover (CV_READS); break;
 	case K_WAIT_T: { nsync_time d = rt_deadline_in (dl_ns); e->dl_ns = rt_ts_ns (d); RT_OP ("nsync_counter_wait", r = nsync_counter_wait (S.c, d)); break; }
@@ -50,8 +53,19 @@ static void do_op (int tid, int kind, int phase, int dl_ns) {
 	default: { struct nsync_waitable_s w; struct nsync_waitable_s *pw = &w; int i; w.v = S.c; w.funcs = &nsync_counter_waitable_funcs;
 		RT_OP ("nsync_wait_n", i = nsync_wait_n (NULL, NULL, NULL, nsync_time_no_deadline, 1, &pw)); r = (uint32_t) i; break; }
 	}
+	sc_set (&S.in_wait[tid], 0);
 	le (e, r);
 	if (kind >= K_WAIT_T && e->sleeps) { rt_cover (CV_WAIT_SLEPT); rt_mark_nontrivial (); }
+}
+
+/* Mode B idle oracle: nothing is runnable, only deadlines are pending.  Once the add that zeroed the counter has returned,
+   every waiter has been released: none may still be asleep, not even one whose own deadline would rescue it later.  */
+static void idle_check (void) {
+	int t;
+	rt_cover (CV_IDLE);
+	if (!sc_get (&S.zeroed)) return;
+	for (t = 0; t < S.nthreads; t++) if (rt_thread_blocked (t) && sc_get (&S.in_wait[t]))
+		rt_violation ("counter-wait", "asleep-at-zero", "idle instant (only deadlines pending): the add that zeroed the counter has returned, yet thread %d is still asleep in %s%s", t, rt_thread_op (t), rt_thread_timed (t) ? " (its own deadline would rescue it later)" : "");
 }
 
 static void barrier (void) {
@@ -72,7 +86,7 @@ static void body (int tid) {
 static int setup (uint64_t seed) {
 	int t, i, total_inc = 0, D, nread;
 	(void) seed;
-	memset (S.nops, 0, sizeof (S.nops)); memset (S.nlog, 0, sizeof (S.nlog)); S.barrier_count = 0;
+	memset (S.nops, 0, sizeof (S.nops)); memset (S.nlog, 0, sizeof (S.nlog)); S.barrier_count = 0; S.zeroed = 0; memset (S.in_wait, 0, sizeof (S.in_wait));
 	S.nthreads = 2 + (int) rt_rand_n (3);
 	S.type = rt_rand_n (4) == 0;
 	if (S.type == 1) {
@@ -209,6 +223,6 @@ static void describe (FILE *f) {
 }
 static void pinit (void) {
 	rt_cover_name (CV_ADDS, "adds"); rt_cover_name (CV_READS, "reads"); rt_cover_name (CV_WAITS_ZERO, "waits_returning_zero"); rt_cover_name (CV_WAITS_TIMEOUT, "waits_timed_out");
-	rt_cover_name (CV_WAIT_SLEPT, "waits_that_slept"); rt_cover_name (CV_LATE_WAITS, "waits_started_after_zero"); rt_cover_name (CV_MIXED_ROUNDS, "mixed_rounds"); rt_cover_name (CV_LIN_STATES, "linearization_search_states");
+	rt_cover_name (CV_WAIT_SLEPT, "waits_that_slept"); rt_cover_name (CV_LATE_WAITS, "waits_started_after_zero"); rt_cover_name (CV_MIXED_ROUNDS, "mixed_rounds"); rt_cover_name (CV_LIN_STATES, "linearization_search_states"); rt_cover_name (CV_IDLE, "idle_instants_checked");
 }
-rt_scenario rt_scen = { "counter", "C10", 4, &pinit, &setup, &body, &check, &teardown, &describe, NULL, NULL, NULL };
+rt_scenario rt_scen = { "counter", "C10", 4, &pinit, &setup, &body, &check, &teardown, &describe, NULL, NULL, NULL, &idle_check };
